@@ -6,7 +6,8 @@ src = sys.argv[1]
 scratch = tempfile.mkdtemp(prefix='wtmx', dir='/tmp')
 ev = tempfile.mkdtemp(prefix='wtev', dir='/tmp')
 try:
-    subprocess.check_call(['rsync', '-a', '--exclude', '.git', '/repo/', scratch + '/'])
+    # copy of the committed tree (immune to patches temporarily applied to /repo's working tree)
+    subprocess.check_call('git -C /repo archive HEAD | tar -x -C ' + scratch, shell=True)
     rc = subprocess.run(['git', 'apply', os.path.join(src, 'patch.diff')], cwd=scratch, capture_output=True, text=True, env=dict(os.environ, GIT_CEILING_DIRECTORIES='/tmp'))
     out = {'src': src, 'applies': rc.returncode == 0, 'detected_by': {}}
     if rc.returncode == 0:
